@@ -76,9 +76,12 @@ int main(int argc, char **argv) {
     else if (strcmp(dom, "heap") == 0) dom_heap();
     else if (strcmp(dom, "lexer") == 0) dom_lexer();
     else if (strcmp(dom, "match") == 0) dom_match();
+    else if (strcmp(dom, "errstr") == 0) dom_errstr();
+    else if (strcmp(dom, "expr") == 0) dom_expr();
     else if (strcmp(dom, "p01") == 0) dom_p01();
     else if (strcmp(dom, "p02") == 0) dom_p02();
     else if (strcmp(dom, "p04") == 0) dom_p04();
+    else if (strcmp(dom, "p17") == 0) dom_p17();
     else if (strcmp(dom, "p05") == 0) dom_p05();
     else if (strcmp(dom, "p06") == 0) dom_p06();
     else if (strcmp(dom, "p08") == 0) dom_p08();
